@@ -16,8 +16,11 @@ var FsHook func(op, path, phase string) error
 
 func fsPoint(op, path, phase string) error {
 	x := X
-	if x == nil || x.teardown {
+	if x == nil || x.teardown || x.fin {
 		return nil
+	}
+	if phase == "pre" {
+		x.yield(nil, "fs:"+op) // every file-system mutation is a scheduling point
 	}
 	if FsHook != nil {
 		if err := FsHook(op, path, phase); err != nil {
@@ -35,14 +38,20 @@ func OsWriteFile(name string, data []byte, perm os.FileMode) error {
 	if err != nil {
 		return err
 	}
-	fsPoint("writefile", name, "mid-truncated")
+	if err := fsPoint("writefile", name, "mid-truncated"); err != nil {
+		f.Close()
+		return err // e.g. disk full right after the truncation
+	}
 	h := len(data) / 2
 	if _, err := f.Write(data[:h]); err != nil {
 		f.Close()
 		return err
 	}
 	if h > 0 {
-		fsPoint("writefile", name, "mid-half")
+		if err := fsPoint("writefile", name, "mid-half"); err != nil {
+			f.Close()
+			return err
+		}
 	}
 	if _, err := f.Write(data[h:]); err != nil {
 		f.Close()
@@ -137,7 +146,9 @@ func FileWriteAt(f *os.File, b []byte, off int64) (int, error) {
 		if err != nil {
 			return n, err
 		}
-		fsPoint("writeat", f.Name(), "mid-half")
+		if err := fsPoint("writeat", f.Name(), "mid-half"); err != nil {
+			return n, err
+		}
 	}
 	m, err := f.WriteAt(b[h:], off+int64(h))
 	n += m
